@@ -119,9 +119,8 @@ spec fn decoded_at(bytes: Seq<u8>, pos: nat, b8: Seq<u8>) -> Option<Seq<u8>> {
 //@ rules R15
 //@ subst `compressed_chunk_boundary_offsets.last().unwrap_or(&0)` => `vx_last_or_zero(compressed_chunk_boundary_offsets)` :: R7 outline (`&u32 + u32`): value of the last element or 0
 //@ contract
-    requires
-        // the physical end offsets are u32: the offset of this chunk's end must fit (see notes: the caller does NOT guarantee this)
-        last_or_0(old(compressed_chunk_boundary_offsets)@) + 8 + le3(buf8@, 1) <= u32::MAX,
+    // no precondition: since commit 0a1edf6 the u32 end offset is computed with `checked_add` and an offset that does not fit is a
+    // FormatError (on the pre-fix text the two `+` overflow obligations fail)
     ensures
         final(reader).bytes() == old(reader).bytes(),
         r is Ok ==> ({
@@ -133,12 +132,17 @@ spec fn decoded_at(bytes: Seq<u8>, pos: nat, b8: Seq<u8>) -> Option<Seq<u8>> {
                 && d.len() == le3(buf8@, 5) && d.len() <= MAXIMUM_CHUNK_SIZE
                 // ... and the chunk list grows by EXACTLY ONE entry (H(d), |d|)
                 && final(chunk_hash_and_size)@ == old(chunk_hash_and_size)@.push(chunk_of(d))
-            // the offset table grows by exactly last_or_0 + 8 + compressed length
+            // the offset table grows by exactly last_or_0 + 8 + compressed length, which fits u32 (otherwise the step is rejected, never wrapped)
+            &&& /*@C08*/ last_or_0(old(compressed_chunk_boundary_offsets)@) + 8 + clen <= u32::MAX
             &&& /*@C08*/ final(compressed_chunk_boundary_offsets)@
                     == old(compressed_chunk_boundary_offsets)@.push((last_or_0(old(compressed_chunk_boundary_offsets)@) + 8 + clen) as u32)
         }),
-        // on rejection/error nothing was appended
-        r is Err ==> final(chunk_hash_and_size)@ == old(chunk_hash_and_size)@ && final(compressed_chunk_boundary_offsets)@ == old(compressed_chunk_boundary_offsets)@,
+        // on rejection/error the offset table is untouched; the chunk list is untouched too except on the overflow rejection, which comes
+        // after the chunk was pushed (old list is then a prefix; the caller returns the error, so the lists are dropped)
+        r is Err ==> final(compressed_chunk_boundary_offsets)@ == old(compressed_chunk_boundary_offsets)@
+            && (final(chunk_hash_and_size)@ == old(chunk_hash_and_size)@
+                || (final(chunk_hash_and_size)@.drop_last() == old(chunk_hash_and_size)@
+                    && last_or_0(old(compressed_chunk_boundary_offsets)@) + 8 + le3(buf8@, 1) > u32::MAX)),
 //@ end
 
 // ---- loop level (pure): if every chunk step satisfies the contract above, the list is the decoded chunks' (H(d_i), |d_i|) in order ----
